@@ -64,8 +64,15 @@ pub trait PCode<'a> {
     fn instantiate(&self, args: &[u8], opts: &InstOpts, sender: &Addr) -> POut;
 }
 
-pub struct ProxyFns {
-    pub store: for<'a> fn(&'a SvAppE) -> Box<dyn PCode<'a> + 'a>,
-    /// (app, contract addr, handler id, args JSON object, funds, sender, new code id for migrate)
-    pub call: fn(&SvAppE, &Addr, &str, &[u8], Option<&[Coin]>, &Addr, u64) -> POut,
+/// glue of one program, typed by the chain it lives on
+pub enum ProxyFns {
+    E {
+        store: for<'a> fn(&'a SvAppE) -> Box<dyn PCode<'a> + 'a>,
+        /// (app, contract addr, handler id, args JSON object, funds, sender, new code id for migrate)
+        call: fn(&SvAppE, &Addr, &str, &[u8], Option<&[Coin]>, &Addr, u64) -> POut,
+    },
+    C {
+        store: for<'a> fn(&'a SvAppC) -> Box<dyn PCode<'a> + 'a>,
+        call: fn(&SvAppC, &Addr, &str, &[u8], Option<&[Coin]>, &Addr, u64) -> POut,
+    },
 }
